@@ -478,6 +478,12 @@ func classifyEnc(r *evid.Recorder, c *EncCase, res *refResolver, want []fileView
 	if nImp > 0 {
 		r.Class(c.Kind + ":has-import-files")
 	}
+	for _, v := range want {
+		if v.IsImport && !strings.HasPrefix(v.Path, "google/protobuf/") {
+			r.Class(c.Kind + ":has-non-wkt-import-files")
+			break
+		}
+	}
 	if nNoSyn > 0 {
 		r.Class(c.Kind + ":has-syntax-unspecified")
 	}
@@ -501,7 +507,7 @@ func TestEncodingAPI(t *testing.T) {
 	ctx := context.Background()
 	tmp := t.TempDir()
 	n := 0
-	r.Check(t, r.Scale(1600, 42000), 1, func(t *rapid.T) {
+	r.Check(t, r.Scale(640, 24000), 1, func(t *rapid.T) {
 		n++
 		src, _ := genSrc(t, r.Thorough())
 		c := &EncCase{Kind: "enc-api", Src: src}
@@ -658,7 +664,7 @@ func TestEncodingCLI(t *testing.T) {
 		c := &EncCase{Kind: "enc-cli", Src: src}
 		genEncCommon(t, c)
 		c.FlagsOnRead = rapid.Bool().Draw(t, "flags-on-read")
-		if c.Format == "binpb" && !c.AsFDS && rapid.IntRange(0, 2).Draw(t, "unknown") == 0 {
+		if c.Format == "binpb" && !c.AsFDS && rapid.IntRange(0, 1).Draw(t, "unknown") == 0 {
 			c.Unknown = genUnknown(t, len(src.allPaths()))
 		}
 		runEncCLI(ctx, t, r, c)
